@@ -15,6 +15,7 @@ mod p_check;
 mod rng;
 mod runner;
 mod sched;
+mod stdio_check;
 mod walker;
 mod world_a;
 mod world_f;
@@ -118,7 +119,7 @@ fn main() {
             });
             match v["world"].as_str() {
                 Some("H") => h_check::replay(&v, &args[2]),
-                Some("A") => a_check::replay(&v, &args[2]),
+                Some("A") | Some("A-stdio") => a_check::replay(&v, &args[2]),
                 Some("F") => f_check::replay(&v, &args[2]),
                 Some("P") => p_check::replay(&v, &args[2]),
                 _ => {
